@@ -94,6 +94,7 @@ def statement_texts(text):
 
 def bases(thorough):
   out = [s for s in c06.EXTRA if not s.startswith('#') and s.strip()]
+  out += ['T([], x) :- A(x), y == [], z == [[], [1]];', 'T(x) :- A(x, {}), y == {a: [], b: {}};']
   es = list(c06.exprs(2))
   for e in es[::(40 if thorough else 140)]:
     out.append('T(%s) :- A(x), z == %s;' % (e, e))
@@ -171,7 +172,7 @@ def work(task):
       if idx < 0 or (a, b) in seen or not str(h).strip(): continue
       seen.add((a, b))
       if wrappable(her, a, b):
-        for l, r in (('(', ')'), ('((', '))'), ('( ', ' )')):
+        for l, r in (('(', ')'), ('((', '))'), ('( ', ' )'), ('( (', ') )'), ('(\n  (', ')\n)'), ('( ( ', ' ) )')):
           v = base[:idx + a] + l + base[idx + a:idx + b] + r + base[idx + b:]
           stats['paren_variants'] += 1
           same_as(base, base_rules, v, 'parentheses')
@@ -179,7 +180,7 @@ def work(task):
     for st, body_start, parts in conjuncts(base):
       for k, (a, b) in enumerate(parts):
         if not base[a:b].strip(): continue
-        for l, r in (('(', ')'), ('((', '))')):
+        for l, r in (('(', ')'), ('((', '))'), ('( (', ') )'), ('(\n(', ')\n)')):
           v = base[:a] + l + base[a:b] + r + base[b:]
           stats['paren_variants'] += 1
           same_as(base, base_rules, v, 'parentheses')
